@@ -188,6 +188,12 @@ func (s *Schema) Validate(document jschema.Document) (err error) {
 }
 
 func (s *Schema) validate(document jschema.Document) error {
+	if d, ok := document.(*json.Document); ok {
+		// Start from the beginning whatever was read from this document before.
+		d.Rewind()
+		defer d.Rewind()
+	}
+
 	if s.inner.RootNode() == nil {
 		return errors.NewDocumentError(s.file, errors.ErrEmptySchema)
 	}
